@@ -184,9 +184,13 @@ def _decode_template(hexs):
                 i += 4
             if c & 2:
                 ph["width"] = int.from_bytes(b[i:i + 2], "little")
+                if c & 0x10:
+                    ph["width"] = "arg%d" % ph["width"]
                 i += 2
             if c & 4:
                 ph["prec"] = int.from_bytes(b[i:i + 2], "little")
+                if c & 0x20:
+                    ph["prec"] = "arg%d" % ph["prec"]      # precision taken from an argument ({:.prec$})
                 i += 2
             if c & 8:
                 nxt = int.from_bytes(b[i:i + 2], "little")
